@@ -62,6 +62,7 @@ def run(dll, kind, window, size, target, seed, plan=None, record=False, lat=1000
     else:
         sc.send(0, 0, 254, 0x11, 6, data)
     sc.net.run(20_000_000, stop=lambda: sc.tables_empty() and sc.net.quiet())
+    t_idle = sc.w.now
     sc.net.run(100_000)
     bad = []
     if sc.net.errors:
@@ -69,6 +70,19 @@ def run(dll, kind, window, size, target, seed, plan=None, record=False, lat=1000
     r = net21.check_exactly_once(sc)
     if r:
         bad.append(r)
+    # a transfer that is delivered ends without any abort on the bus and both sides go idle right after the last frame
+    # (no loss here: nobody has a reason to give up) — wherever the thread was held
+    def is_abort(cid, d):
+        pf = (cid >> 16) & 0xFF
+        return bool(d) and ((pf == 0xEC and d[0] == 255) or (pf == 0x4D and d[0] & 15 == 15))
+    if not bad:
+        aborts = [(t, hex(cid), d[:8]) for (t, s_, cid, d, fd) in sc.net.bus if is_abort(cid, d)]
+        if aborts:
+            bad.append(f"connection abort on the bus although the transfer was delivered: {aborts[0]}")
+        last = max([t for (t, s_, cid, d, fd) in sc.net.bus if not is_abort(cid, d)] or [0])
+        hold = sum(plan.values()) if plan else 0
+        if sc.tables_empty() and t_idle - last > 300_000 + hold:
+            bad.append(f"session records stayed {(t_idle - last) // 1000} ms after the last frame of a delivered transfer")
     if not sc.tables_empty():
         bad.append("a session is left in a table (not idle) after the transfer")
     if sc.net.max_spins > 50:
@@ -173,7 +187,8 @@ def oracle(ctx, full):
                      "j1939_22.py, each occurrence) is a pre-emption point — the thread is held there for 0.2..5 ms of bus time while the "
                      "other stack and frame reception on the same stack go on (line tracer, no source hooks); one pre-emption per run "
                      "(exhaustive in the thorough tier, sampled in quick), two per run sampled: payload intact exactly once, tables empty, "
-                     "no exception in the background thread, no spin")
+                     "no exception in the background thread, no spin, no connection abort on the bus, both sides idle within 300 ms (+ hold) "
+                     "of the last frame")
 
 
 def replay(ctx, path):
